@@ -113,6 +113,18 @@ def astsOf : List Expr → List Ast
   | a :: as => astOf a :: astsOf as
 end
 
+theorem ptoksArgs_cons2 (a a' : Expr) (as' : List Expr) :
+    ptoksArgs (a :: a' :: as') = ptoks a ++ commaTok :: ptoksArgs (a' :: as') := by
+  simp [ptoksArgs]
+
+theorem ptoksArgs_single (a : Expr) : ptoksArgs [a] = ptoks a := by simp [ptoksArgs]
+
+theorem toksArgs_cons2 (a a' : Expr) (as' : List Expr) :
+    toksArgs (a :: a' :: as') = toks a ++ commaTok :: toksArgs (a' :: as') := by
+  simp [toksArgs]
+
+theorem toksArgs_single (a : Expr) : toksArgs [a] = toks a := by simp [toksArgs]
+
 /-! ### induction principle for the nested type -/
 
 theorem Expr.ind {P : Expr → Prop}
